@@ -452,6 +452,46 @@ def _run_membership(case):
 
 
 
+class _LazyCases(list):
+    """A case list that is decoded on demand (the thorough routing stages have millions of descriptors).
+
+    blocks: list of (prefix data, inner count); decode(prefix, j) -> case descriptor for 0 <= j < inner count.
+    It is a list subclass only so that the runner keeps it as it is; the runner uses len() and [i]."""
+
+    def __init__(self, blocks, decode):
+        super().__init__()
+        self._blocks = blocks
+        self._decode = decode
+        self._starts = []
+        n = 0
+        for _pfx, cnt in blocks:
+            self._starts.append(n)
+            n += cnt
+        self._n = n
+
+    def __len__(self):
+        return self._n
+
+    def __bool__(self):
+        return self._n > 0
+
+    def __getitem__(self, i):
+        import bisect
+        if isinstance(i, slice):
+            return [self[j] for j in range(*i.indices(self._n))]
+        if i < 0:
+            i += self._n
+        if not 0 <= i < self._n:
+            raise IndexError(i)
+        b = bisect.bisect_right(self._starts, i) - 1
+        return self._decode(self._blocks[b][0], i - self._starts[b])
+
+    def __iter__(self):
+        for pfx, cnt in self._blocks:
+            for j in range(cnt):
+                yield self._decode(pfx, j)
+
+
 # =============================================================================================
 # (b) routing
 # =============================================================================================
@@ -718,6 +758,13 @@ def _check_routing(G, directed, circuit, la, tag, mapper, mapper_desc, seed, n_l
 def _placements(n, k, limit=120):
     """Every injective placement of k logical indices into n nodes when there are <= limit, else the placements of the
     canonical logical qubit 0 on every node (rest filled in node order)."""
+    key = ("placements", n, k, limit)
+    if key not in _B:
+        _B[key] = _placements_uncached(n, k, limit)
+    return _B[key]
+
+
+def _placements_uncached(n, k, limit):
     total = 1
     for i in range(k):
         total *= n - i
@@ -817,26 +864,46 @@ def _k_of_pattern(pat):
     return 1 + max(max(p) for p in pat)
 
 
+_B1_COMBOS_QUICK = ((0, 8, 0), (0, 1, 1), (1, 2, 1), (2, 8, 0))  # (mapper id, lookahead_radius, tag)
+_B1_COMBOS_FULL = tuple((m, la, t) for m in (0, 1, 2) for la in (1, 2, 8) for t in (0, 1))
+_B1_COMBOS_L3 = ((0, 8, 0), (1, 1, 1))
+
+
+def _decode_b1(pfx, j):
+    gi, k, nl, L, combos = pfx
+    j, ci = divmod(j, len(combos))
+    seq = []
+    for _ in range(L):
+        j, d = divmod(j, nl)
+        seq.append(d)
+    mid, la, tag = combos[ci]
+    return (("u", gi), k, tuple(reversed(seq)), mid, la, tag)
+
+
 def _cases_route_letters(tier):
     _init_b(tier)
-    cases = []
+    blocks = []
     Lmax = 3 if tier == "thorough" else 2
-    for gi, (n, edges) in enumerate(_B["graphs"]):
-        if n > 5:
-            continue
-        k = min(4, n)
-        nl = len(_route_letters(k, 0))
-        for L in range(0, Lmax + 1):
-            for seq in itertools.product(range(nl), repeat=L):
-                if L == 3:
-                    combos = ((0, 8, 0), (1, 1, 1))
-                else:
-                    combos = ((0, 8, 0), (0, 1, 1), (1, 2, 1), (2, 8, 0)) if tier == "quick" else \
-                        tuple((m, la, t) for m in (0, 1, 2) for la in (1, 2, 8) for t in (0, 1))
-                for mid, la, tag in combos:
-                    cases.append((("u", gi), k, tuple(seq), mid, la, tag))
-    cases.sort(key=lambda c: (len(c[2]), c[0][1]))
-    return cases
+    for L in range(0, Lmax + 1):
+        for gi, (n, edges) in enumerate(_B["graphs"]):
+            if n > 5:
+                continue
+            k = min(4, n)
+            nl = len(_route_letters(k, 0))
+            combos = _B1_COMBOS_L3 if L == 3 else (_B1_COMBOS_QUICK if tier == "quick" else _B1_COMBOS_FULL)
+            blocks.append(((gi, k, nl, L, combos), nl ** L * len(combos)))
+    return _LazyCases(blocks, _decode_b1)
+
+
+def _decode_b2(pfx, j):
+    kind, gi, n, k, pi, pads = pfx
+    pls = _placements(n, k)
+    j, li = divmod(j, 3)
+    qi, pdi = divmod(j, len(pads))
+    la = (1, 2, 8)[li]
+    tag = (qi + pi + la) % 2
+    wm = (qi + pi) % 3 == 0
+    return ((kind, gi), k, pi, tuple(pls[qi]), pads[pdi], la, tag, int(wm))
 
 
 def _cases_route_placements(tier, directed):
@@ -844,14 +911,14 @@ def _cases_route_placements(tier, directed):
     thorough = tier == "thorough"
     _B["patterns"] = _patterns(4 if thorough else 3, 4)
     pats = _B["patterns"]
-    cases = []
+    blocks = []
     graphs = _B["digraphs"] if directed else _B["graphs"]
-    for gi, (n, edges) in enumerate(graphs):
-        for pi, pat in enumerate(pats):
-            k = _k_of_pattern(pat)
+    for pi, pat in enumerate(pats):  # patterns are sorted by length: simplest first
+        k = _k_of_pattern(pat)
+        plen = len(pat)
+        for gi, (n, edges) in enumerate(graphs):
             if k > n:
                 continue
-            plen = len(pat)
             if directed:
                 if plen > (3 if (thorough and n <= 4) else 2):
                     continue
@@ -864,17 +931,9 @@ def _cases_route_placements(tier, directed):
             else:
                 if plen > (4 if thorough else 3):
                     continue
-            pls = _placements(n, k)
-            for qi, pl in enumerate(pls):
-                for pad in (1, 0):
-                    if not pad and (k == n or (directed and n == 5)):
-                        continue
-                    for la in (1, 2, 8):
-                        tag = (qi + pi + la) % 2
-                        wm = (qi + pi) % 3 == 0
-                        cases.append((("d" if directed else "u", gi), k, pi, tuple(pl), pad, la, tag, int(wm)))
-    cases.sort(key=lambda c: (len(pats[c[2]]), c[0][1]))
-    return cases
+            pads = (1,) if (k == n or (directed and n == 5)) else (1, 0)
+            blocks.append((("d" if directed else "u", gi, n, k, pi, pads), len(_placements(n, k)) * len(pads) * 3))
+    return _LazyCases(blocks, _decode_b2)
 
 
 def _run_route_default_directed(case):
